@@ -625,6 +625,125 @@ def forms_8051():
         yield it('org %d\n\tajmp %d' % (pc, (page + 0x800) & 0xffff), 'ERR', S + 'AJMP/page', at=pc)
 
 
+def forms_6800():
+    """Motorola M6800: the complete opcode map (197 opcodes), M6800 Programming Reference Manual; direct/extended selection at
+    the $FF/$100 boundary, indexed offsets 0/1/255, immediates 0/1/$7F/$80/$FF (16-bit: 0/1/$1234/$FFFF), relative branches at
+    both limits"""
+    S = '6800/'
+    inh = {'nop': 0x01, 'tap': 0x06, 'tpa': 0x07, 'inx': 0x08, 'dex': 0x09, 'clv': 0x0a, 'sev': 0x0b, 'clc': 0x0c, 'sec': 0x0d, 'cli': 0x0e, 'sei': 0x0f, 'sba': 0x10,
+           'cba': 0x11, 'tab': 0x16, 'tba': 0x17, 'daa': 0x19, 'aba': 0x1b, 'tsx': 0x30, 'ins': 0x31, 'pula': 0x32, 'pulb': 0x33, 'des': 0x34, 'txs': 0x35, 'psha': 0x36,
+           'pshb': 0x37, 'rts': 0x39, 'rti': 0x3b, 'wai': 0x3e, 'swi': 0x3f}
+    for mn, op in inh.items():
+        yield it(mn, [op], S + mn.upper())
+    rmw = {'neg': 0, 'com': 3, 'lsr': 4, 'ror': 6, 'asr': 7, 'asl': 8, 'rol': 9, 'dec': 10, 'inc': 12, 'tst': 13, 'clr': 15}
+    for mn, lo in rmw.items():
+        yield it(mn + 'a', [0x40 | lo], S + mn.upper() + 'A')
+        yield it(mn + 'b', [0x50 | lo], S + mn.upper() + 'B')
+        for o in (0, 1, 255):
+            yield it('%s %d,x' % (mn, o), [0x60 | lo, o], S + mn.upper() + ' idx')
+        yield it('%s 256,x' % mn, 'ERR', S + mn.upper() + ' idx/range')
+        for a in (0x100, 0x1234, 0xffff):
+            yield it('%s %d' % (mn, a), [0x70 | lo, a >> 8, a & 0xff], S + mn.upper() + ' ext')
+        # these have no direct mode: a page-zero address takes the extended form
+        yield it('%s 16' % mn, [0x70 | lo, 0, 16], S + mn.upper() + ' ext-of-page-zero')
+    for o in (0, 255):
+        yield it('jmp %d,x' % o, [0x6e, o], S + 'JMP idx')
+        yield it('jsr %d,x' % o, [0xad, o], S + 'JSR idx')
+    for a in (0, 0x10, 0x100, 0xffff):
+        yield it('jmp %d' % a, [0x7e, a >> 8, a & 0xff], S + 'JMP ext')
+        yield it('jsr %d' % a, [0xbd, a >> 8, a & 0xff], S + 'JSR ext')
+    acc = {'sub': 0, 'cmp': 1, 'sbc': 2, 'and': 4, 'bit': 5, 'lda': 6, 'sta': 7, 'eor': 8, 'adc': 9, 'ora': 10, 'add': 11}
+    for mn, lo in acc.items():
+        for r, base in (('a', 0x80), ('b', 0xc0)):
+            m = mn + r if mn not in ('lda', 'sta', 'ora') else {'lda': 'lda', 'sta': 'sta', 'ora': 'ora'}[mn] + 'a' if False else None
+            name = {'lda': 'lda' + r, 'sta': 'sta' + r, 'ora': 'ora' + r}.get(mn, mn + r)
+            name = {'ldaa': 'ldaa', 'ldab': 'ldab', 'staa': 'staa', 'stab': 'stab', 'oraa': 'oraa', 'orab': 'orab'}.get(name, name)
+            if mn != 'sta':
+                for v in (0, 1, 0x7f, 0x80, 0xff):
+                    yield it('%s #%d' % (name, v), [base | lo, v], S + name.upper() + ' imm')
+                yield it('%s #256' % name, 'ERR', S + name.upper() + ' imm/range')
+            else:
+                yield it('%s #1' % name, 'ERR', S + name.upper() + ' imm/not-allowed')
+            for d in (0, 1, 0xff):
+                yield it('%s %d' % (name, d), [base | 0x10 | lo, d], S + name.upper() + ' dir')
+            for o in (0, 255):
+                yield it('%s %d,x' % (name, o), [base | 0x20 | lo, o], S + name.upper() + ' idx')
+            for a in (0x100, 0xffff):
+                yield it('%s %d' % (name, a), [base | 0x30 | lo, a >> 8, a & 0xff], S + name.upper() + ' ext')
+    for mn, imm, base in (('cpx', 1, 0x8c), ('lds', 1, 0x8e), ('ldx', 1, 0xce), ('sts', 0, 0x8f), ('stx', 0, 0xcf)):
+        if imm:
+            for v in (0, 1, 0x1234, 0xffff):
+                yield it('%s #%d' % (mn, v), [base, v >> 8, v & 0xff], S + mn.upper() + ' imm16')
+        else:
+            yield it('%s #1' % mn, 'ERR', S + mn.upper() + ' imm/not-allowed')
+        for d in (0, 0xff):
+            yield it('%s %d' % (mn, d), [base | 0x10, d], S + mn.upper() + ' dir')
+        for o in (0, 255):
+            yield it('%s %d,x' % (mn, o), [base | 0x20, o], S + mn.upper() + ' idx')
+        for a in (0x100, 0xffff):
+            yield it('%s %d' % (mn, a), [base | 0x30, a >> 8, a & 0xff], S + mn.upper() + ' ext')
+    br = {'bra': 0x20, 'bhi': 0x22, 'bls': 0x23, 'bcc': 0x24, 'bcs': 0x25, 'bne': 0x26, 'beq': 0x27, 'bvc': 0x28, 'bvs': 0x29, 'bpl': 0x2a, 'bmi': 0x2b, 'bge': 0x2c,
+          'blt': 0x2d, 'bgt': 0x2e, 'ble': 0x2f, 'bsr': 0x8d}
+    at = 0x1000
+    for mn, op in br.items():
+        for dist in (-128, -127, -1, 0, 1, 126, 127):
+            yield it('org %d\n\t%s %d' % (at, mn, at + 2 + dist), [op, dist & 0xff], S + mn.upper(), at=at)
+        for dist in (-129, 128):
+            yield it('org %d\n\t%s %d' % (at, mn, at + 2 + dist), 'ERR', S + mn.upper() + '/range', at=at)
+
+
+def forms_6809_indexed():
+    """MC6809 indexed addressing (MC6809 data sheet, 'Indexed addressing postbyte register bit assignments'): every postbyte
+    form on all four pointer registers, direct and indirect, with constant offsets at the 5-bit, 8-bit and 16-bit selection
+    limits and program-counter-relative offsets at the 8/16-bit limit, on LDA ($A6) and LEAX ($30)"""
+    S = '6809/'
+    RR = {'x': 0, 'y': 1, 'u': 2, 's': 3}
+    for mn, op in (('lda', [0xa6]), ('leax', [0x30]), ('stx', [0xaf]), ('ldy', [0x10, 0xae])):
+        for r, rr in RR.items():
+            base = 0x80 | rr << 5
+            for txt, low, ind_ok in ((',%s+', 0, False), (',%s++', 1, True), (',-%s', 2, False), (',--%s', 3, True), (',%s', 4, True), ('b,%s', 5, True), ('a,%s', 6, True), ('d,%s', 11, True)):
+                yield it('%s %s' % (mn, txt % r), op + [base | low], S + mn.upper() + ' ' + (txt % 'R'))
+                if ind_ok:
+                    yield it('%s [%s]' % (mn, txt % r), op + [base | 0x10 | low], S + mn.upper() + ' [' + (txt % 'R') + ']')
+                else:
+                    yield it('%s [%s]' % (mn, txt % r), 'ERR', S + mn.upper() + ' [' + (txt % 'R') + ']/not-allowed')
+            for n in (-32768, -129, -128, -17, -16, -1, 0, 1, 15, 16, 127, 128, 32767):
+                if n == 0:
+                    direct = [base | 4]
+                elif -16 <= n <= 15:
+                    direct = [rr << 5 | (n & 0x1f)]
+                elif -128 <= n <= 127:
+                    direct = [base | 8, n & 0xff]
+                else:
+                    direct = [base | 9, (n >> 8) & 0xff, n & 0xff]
+                x = it('%s %d,%s' % (mn, n, r), op + direct, S + mn.upper() + ' n,R')
+                if n == 127:
+                    # the assembler takes the 16-bit offset form for exactly +127 (recorded by the golden test t_full09): a longer
+                    # but equivalent encoding of the same instruction, accepted as such
+                    x['want'] = [x['want'], bytes(op + [base | 9, 0, 127]).hex()]
+                yield x
+                if n == 0:
+                    ind = [base | 0x14]
+                elif -128 <= n <= 127:
+                    ind = [base | 0x18, n & 0xff]
+                else:
+                    ind = [base | 0x19, (n >> 8) & 0xff, n & 0xff]
+                x = it('%s [%d,%s]' % (mn, n, r), op + ind, S + mn.upper() + ' [n,R]')
+                if n == 127:
+                    x['want'] = [x['want'], bytes(op + [base | 0x19, 0, 127]).hex()]
+                yield x
+        for a in (0, 0x1234, 0xffff):
+            yield it('%s [%d]' % (mn, a), op + [0x9f, a >> 8, a & 0xff], S + mn.upper() + ' [ext]')
+        # n,PCR: the offset counts from the address behind the instruction, whose length depends on the offset size
+        at = 0x2000
+        L = len(op)
+        for d in (-128, -127, -1, 0, 1, 125, 126):
+            yield it('org %d\n\t%s %d,pcr' % (at, mn, at + L + 2 + d), op + [0x8c, d & 0xff], S + mn.upper() + ' n8,PCR', at=at)
+            yield it('org %d\n\t%s [%d,pcr]' % (at, mn, at + L + 2 + d), op + [0x9c, d & 0xff], S + mn.upper() + ' [n8,PCR]', at=at)
+        for d in (-0x2000, -200, 200, 0x1000):
+            yield it('org %d\n\t%s %d,pcr' % (at, mn, at + L + 3 + d), op + [0x8d, (d >> 8) & 0xff, d & 0xff], S + mn.upper() + ' n16,PCR', at=at)
+
+
 ISAS = {
     '6502': dict(cpu='6502', gen=forms_6502, slot=8),
     '8080': dict(cpu='8080', gen=forms_8080, slot=8),
@@ -636,4 +755,6 @@ ISAS = {
     'msp430-jumps': dict(cpu='msp430', gen=forms_msp430_jumps, slot=4),
     'msp430': dict(cpu='msp430', gen=forms_msp430, slot=8),
     '8051': dict(cpu='8051', gen=forms_8051, slot=4),
+    '6800': dict(cpu='6800', gen=forms_6800, slot=4),
+    '6809-indexed': dict(cpu='6809', gen=forms_6809_indexed, slot=8),
 }
